@@ -91,7 +91,7 @@ EventStep(ev) ==
                       /\ Tok(g) # <<>> /\ Last(Tok(g)) = ev.tok          \* complete receives the context its start returned
                       /\ ObsHandlerDone(g, ev.err)
                       /\ toks' = (g :> SubSeq(Tok(g), 1, Len(Tok(g)) - 1)) @@ toks
-  \/ /\ ev.e = "close" /\ (\E g \in Gs : StoreClose(g)) /\ UNCHANGED toks
+  \/ /\ ev.e = "close" /\ (\E g \in Gs : StoreClose(g, ev.ok)) /\ UNCHANGED toks
   \/ /\ ev.e = "otel" /\ ev.ok /\ UNCHANGED <<vars, toks>>       \* the OpenTelemetry SDK's spans and counters agree with the recorded callbacks
 
 TraceInit ==
